@@ -320,21 +320,21 @@ func (h *histRunner) run(hist [][]interface{}) {
 			}
 			sent := append([]byte{}, buf...)
 			ec, pan := "", ""
-			func() {
+			stages := recordStages(func() {
 				defer func() {
 					if r := recover(); r != nil {
 						pan = fmt.Sprint(r)
 					}
 				}()
 				ec = errClass(st.Unmarshal(buf))
-			}()
+			})
 			modified := string(sent) != string(buf)
 			effVer := p.Ver
 			if len(buf) >= 16 {
 				effVer = headerVersion(buf)
 			}
 			h.t.Emit(Ev{"ev": "unm", "sid": p.SID, "cut": cut, "ver": ints(effVer), "total": len(p.Bytes), "err": ec, "pan": pan,
-				"bufmodified": b2i(modified), "kind": kind})
+				"bufmodified": b2i(modified), "kind": kind, "stages": stages})
 			if ec == "" && pan == "" {
 				src = p
 				if cut >= 0 {
@@ -369,7 +369,7 @@ func (h *histRunner) attempt(pre *poolStream, p *poolStream, cut int, ver string
 	h.t.Emit(Ev{"ev": "inst"})
 	if pre != nil {
 		ec := errClass(st.Unmarshal(append([]byte{}, pre.Bytes...)))
-		h.t.Emit(Ev{"ev": "unm", "sid": pre.SID, "cut": -1, "ver": ints(pre.Ver), "total": len(pre.Bytes), "err": ec, "pan": "", "bufmodified": 0, "kind": "unm"})
+		h.t.Emit(Ev{"ev": "unm", "sid": pre.SID, "cut": -1, "ver": ints(pre.Ver), "total": len(pre.Bytes), "err": ec, "pan": "", "bufmodified": 0, "kind": "unm", "stages": []string{"skip"}})
 	}
 	buf := append([]byte{}, p.Bytes...)
 	if setVer {
@@ -380,20 +380,20 @@ func (h *histRunner) attempt(pre *poolStream, p *poolStream, cut int, ver string
 	}
 	sent := append([]byte{}, buf...)
 	ec, pan := "", ""
-	func() {
+	stages := recordStages(func() {
 		defer func() {
 			if r := recover(); r != nil {
 				pan = fmt.Sprint(r)
 			}
 		}()
 		ec = errClass(st.Unmarshal(buf))
-	}()
+	})
 	effVer := p.Ver
 	if len(buf) >= 16 {
 		effVer = headerVersion(buf)
 	}
 	h.t.Emit(Ev{"ev": "unm", "sid": p.SID, "cut": cut, "ver": ints(effVer), "total": len(p.Bytes), "err": ec, "pan": pan,
-		"bufmodified": b2i(string(sent) != string(buf)), "kind": "attempt"})
+		"bufmodified": b2i(string(sent) != string(buf)), "kind": "attempt", "stages": stages})
 	var src *poolStream
 	if ec == "" && pan == "" && cut < 0 {
 		src = p
@@ -700,20 +700,20 @@ func (hr *histReplay) handle(t *Tracer, name string, e map[string]interface{}) b
 		}
 		sent := append([]byte{}, buf...)
 		ec, pan := "", ""
-		func() {
+		stages := recordStages(func() {
 			defer func() {
 				if r := recover(); r != nil {
 					pan = fmt.Sprint(r)
 				}
 			}()
 			ec = errClass(hr.st.Unmarshal(buf))
-		}()
+		})
 		effVer := p.Ver
 		if len(buf) >= 16 {
 			effVer = headerVersion(buf)
 		}
 		t.Emit(Ev{"ev": "unm", "sid": p.SID, "cut": cut, "ver": ints(effVer), "total": len(p.Bytes), "err": ec, "pan": pan,
-			"bufmodified": b2i(string(sent) != string(buf)), "kind": e["kind"]})
+			"bufmodified": b2i(string(sent) != string(buf)), "kind": e["kind"], "stages": stages})
 		hr.src = nil
 		if ec == "" && pan == "" && cut < 0 {
 			hr.src = p
